@@ -446,6 +446,32 @@ fn build_lookup(seed: u64) -> String {
             }
         }
         if a.read_file("never-added.bin").is_ok() { return fail("build_lookup", format!("{:?}", names), "read_file(never-added.bin) is Ok".into(), "not found".into()); }
+        drop(a);
+        // independent lookup: the hash table decrypted with the published key and probed the published way (home slot,
+        // +1 with wrap-around over ALL slots, stop at a never-used entry) must find every added name
+        if let Ok(raw) = std::fs::read(&path) {
+            if raw.len() >= 32 && &raw[0..4] == b"MPQ\x1a" && u16::from_le_bytes([raw[12], raw[13]]) == 0 {
+                let rd32 = |o: usize| u32::from_le_bytes([raw[o], raw[o + 1], raw[o + 2], raw[o + 3]]);
+                let (hpos, hn) = (rd32(16) as usize, rd32(24) as usize);
+                if hn.is_power_of_two() && hpos + hn * 16 <= raw.len() {
+                    let words: Vec<u32> = (0..hn * 4).map(|i| rd32(hpos + i * 4)).collect();
+                    let ht = decrypt(&words, hash(b"(hash table)", 0x300));
+                    for n in names.iter() {
+                        let nb = n.as_bytes();
+                        let (ha, hb, mut idx) = (hash(nb, 0x100), hash(nb, 0x200), (hash(nb, 0) as usize) & (hn - 1));
+                        let mut found = false;
+                        for _ in 0..hn {
+                            let e = &ht[idx * 4..idx * 4 + 4];
+                            if e[3] == 0xFFFF_FFFF { break; }
+                            if e[0] == ha && e[1] == hb && e[3] < 0xFFFF_FFFE { found = true; break; }
+                            idx = (idx + 1) & (hn - 1);
+                        }
+                        tried += 1;
+                        if !found { return fail("build_lookup", format!("files {:?} (home slot {} of {}): published probing for {:?} over the table the builder wrote", names, slot, hn, n), "not found (entry is not on the probe path home, home+1, .. with wrap-around)".into(), "found".into()); }
+                    }
+                }
+            }
+        }
     }
     // a second spelling of a stored name (same hashes) whose first copy was displaced from its home slot by a colliding name:
     // the build must refuse it, or both spellings must read back what was added under them
@@ -504,6 +530,23 @@ fn build_lookup(seed: u64) -> String {
             if let Ok(mut a) = Archive::open(&path) {
                 let g = a.read_file("locale\\deDE.txt").ok();
                 if g != Some(vec![7u8; 13]) { return fail("build_lookup", "file added with locale 0x407 next to a neutral file".into(), format!("read_file -> {:?}", g.map(|g| g.len())), "the 13 added bytes".into()); }
+                drop(a);
+                // published entry layout: name hashes at +0/+4, locale (u16) at +8, platform (u16) at +10, block index at +12
+                if let Ok(raw) = std::fs::read(&path) {
+                    let rd32 = |o: usize| u32::from_le_bytes([raw[o], raw[o + 1], raw[o + 2], raw[o + 3]]);
+                    if raw.len() >= 32 && u16::from_le_bytes([raw[12], raw[13]]) == 0 {
+                        let (hpos, hn) = (rd32(16) as usize, rd32(24) as usize);
+                        if hn.is_power_of_two() && hpos + hn * 16 <= raw.len() {
+                            let words: Vec<u32> = (0..hn * 4).map(|i| rd32(hpos + i * 4)).collect();
+                            let ht = decrypt(&words, hash(b"(hash table)", 0x300));
+                            let nb = b"locale\\deDE.txt";
+                            let (ha, hb) = (hash(nb, 0x100), hash(nb, 0x200));
+                            if let Some(e) = ht.chunks(4).find(|e| e[0] == ha && e[1] == hb) {
+                                if e[2] & 0xFFFF != 0x407 || e[2] >> 16 != 0 { return fail("build_lookup", "hash entry of a file added with locale 0x407, platform 0 (table decrypted with the published key)".into(), format!("dword at +8 is {:#010x}", e[2]), "0x00000407 (locale in the low half at +8, platform at +10)".into()); }
+                            }
+                        }
+                    }
+                }
             }
         }
     }
@@ -553,6 +596,20 @@ fn patch_verify(seed: u64) -> String {
                     if out != newd { return fail("patch_verify", format!("COPY patch {}->{} bytes", nb, na), "different bytes".into(), "patch payload".into()); }
                 }
                 Ok(Err(e)) => { if !bad_before && !bad_after { return fail("patch_verify", format!("valid COPY patch {}->{} bytes", nb, na), format!("Err({})", e), "Ok(payload)".into()); } }
+            }
+        }
+    }
+    // a digest field blanked to sixteen zero bytes is a wrong digest like any other
+    for which in 0..2 {
+        tried += 1;
+        let base = vec![3u8; 10]; let newd = vec![9u8; 12];
+        let (mut mb, mut ma) = (md5_of(&base), md5_of(&newd));
+        if which == 0 { mb = [0u8; 16]; } else { ma = [0u8; 16]; }
+        let bytes = ptch(b"COPY", 10, 12, mb, ma, &newd, 12);
+        if let Ok(pf) = PatchFile::parse(&bytes) {
+            let b2 = base.clone();
+            if let Ok(Ok(_)) = catch(move || apply_patch(&pf, &b2)) {
+                return fail("patch_verify", format!("COPY patch 10->12 bytes whose md5_{} field is sixteen zero bytes", if which == 0 { "before" } else { "after" }), "Ok(bytes) - unverified bytes returned".into(), "Err".into());
             }
         }
     }
@@ -892,7 +949,8 @@ fn wdl_roundtrip(seed: u64) -> String {
                 for (i, v) in t.outer_values.iter_mut().enumerate() { *v = (x as i16) * 100 + (y as i16) + i as i16; }
                 for (i, v) in t.inner_values.iter_mut().enumerate() { *v = -((x as i16) * 50 + (y as i16) * 3 + i as i16); }
                 f.heightmap_tiles.insert((x, y), t);
-                if ver.has_maho_chunk() { let mut h = HolesData::new(); h.hole_masks[(x % 16) as usize] = (y as u16) | 0x8000; f.holes_data.insert((x, y), h); }
+                // holes only for some tiles (a tile without holes may precede one with holes), masks with distinct low/high bytes
+                if ver.has_maho_chunk() && (round == 0 || (x + y + round as u32) % 2 == 0) { let mut h = HolesData::new(); h.hole_masks[(x % 16) as usize] = (y as u16) | 0x8000; h.hole_masks[((x + 5) % 16) as usize] = 0x12A5 ^ (x as u16); f.holes_data.insert((x, y), h); }
             }
             let desc = format!("{} WDL with tiles {:?}", vname, tiles);
             let p = WdlParser::with_version(ver);
@@ -1296,8 +1354,10 @@ fn wmo_roundtrip(seed: u64) -> String {
                     name: format!("grp{}_{}", "n".repeat(i), i) });
             }
             if round > 0 { r.doodad_sets.push(WmoDoodadSet { name: "Set_Default".into(), start_doodad: 0, n_doodads: 0 }); }
+            r.header.ambient_color = Color { r: 0x11 + round as u8, g: 0x22, b: 0x33, a: 0x44 };
+            for i in 0..round as u16 { r.portal_references.push(WmoPortalReference { portal_index: i, group_index: 0x0102 + i, side: if i % 2 == 0 { 0xFFFF } else { 0x1234 } }); }
             r.header.n_materials = nmat as u32; r.header.n_groups = ngrp as u32; r.header.n_doodad_sets = r.doodad_sets.len() as u32;
-            let desc = format!("root for {:?}: {} textures {:?}, {} materials, groups {:?}, {} doodad sets", v, ntex, r.textures, nmat, r.groups.iter().map(|g| g.name.clone()).collect::<Vec<_>>(), r.doodad_sets.len());
+            let desc = format!("root for {:?}: {} textures {:?}, {} materials, groups {:?}, {} doodad sets, ambient {:?}, portal refs {:?}", v, ntex, r.textures, nmat, r.groups.iter().map(|g| g.name.clone()).collect::<Vec<_>>(), r.doodad_sets.len(), r.header.ambient_color, r.portal_references);
             let mut out = std::io::Cursor::new(Vec::new());
             match catch(std::panic::AssertUnwindSafe(|| WmoWriter::new().write_root(&mut out, &r, v))) {
                 Err(p) => return fail("wmo_roundtrip", desc, format!("write_root panic: {}", p), "Ok".into()),
@@ -1321,6 +1381,7 @@ fn wmo_roundtrip(seed: u64) -> String {
                 let at = mogn.get(off..).map(|s| &s[..s.iter().position(|&b| b == 0).unwrap_or(s.len())]);
                 if at != Some(g.name.as_bytes()) { return fail("wmo_roundtrip", desc, format!("MOGI entry {} has name offset {} which names {:?}", i, off, at.map(|b| String::from_utf8_lossy(b).to_string())), format!("offset of {:?}", g.name)); }
             }
+            if mohd.len() >= 32 && mohd[28..32] != [r.header.ambient_color.b, r.header.ambient_color.g, r.header.ambient_color.r, r.header.ambient_color.a] { return fail("wmo_roundtrip", desc, format!("MOHD ambient colour bytes {:02x?}", &mohd[28..32]), format!("B,G,R,A = {:02x?}", [r.header.ambient_color.b, r.header.ambient_color.g, r.header.ambient_color.r, r.header.ambient_color.a])); }
             if nmat > 0 { match find(b"MOMT") { Some(m) if m.len() == 64 * nmat => {}, Some(m) => return fail("wmo_roundtrip", desc, format!("MOMT declares {} bytes", m.len()), format!("{} (64 per material written)", 64 * nmat)), None => return fail("wmo_roundtrip", desc, "no MOMT".into(), "MOMT".into()) } }
             // parse side (legacy parser, the writer's counterpart)
             let back = match catch(std::panic::AssertUnwindSafe(|| WmoParser::new().parse_root(&mut std::io::Cursor::new(bytes.clone())))) {
@@ -1331,6 +1392,8 @@ fn wmo_roundtrip(seed: u64) -> String {
             let gn = |x: &WmoRoot| x.groups.iter().map(|g| g.name.clone()).collect::<Vec<_>>();
             if gn(&back) != gn(&r) { return fail("wmo_roundtrip", desc, format!("parsed group names {:?}", gn(&back)), format!("{:?}", gn(&r))); }
             if back.materials.len() != nmat || back.doodad_sets.len() != r.doodad_sets.len() { return fail("wmo_roundtrip", desc, format!("parsed {} materials, {} doodad sets", back.materials.len(), back.doodad_sets.len()), format!("{} / {}", nmat, r.doodad_sets.len())); }
+            if format!("{:?}", back.header.ambient_color) != format!("{:?}", r.header.ambient_color) { return fail("wmo_roundtrip", desc, format!("parsed ambient colour {:?}", back.header.ambient_color), format!("{:?}", r.header.ambient_color)); }
+            if format!("{:?}", back.portal_references) != format!("{:?}", r.portal_references) { return fail("wmo_roundtrip", desc, format!("parsed portal references {:?}", back.portal_references), format!("{:?}", r.portal_references)); }
             for (a, b) in back.materials.iter().zip(r.materials.iter()) {
                 if (a.flags.bits(), a.shader, a.blend_mode, a.texture1, a.texture2, a.ground_type) != (b.flags.bits(), b.shader, b.blend_mode, b.texture1, b.texture2, b.ground_type) { return fail("wmo_roundtrip", desc, format!("material parsed as {:?}", a), format!("{:?}", b)); }
             }
